@@ -150,6 +150,8 @@ class Sym:
         self.param_terms = param_terms or {}
         self.inlined = set()
         self.notes = []
+        self.applying = 0
+        self.closures = {}     # closure site -> (node, captured env, frames)
         self.arith = {}        # span of a + - * node -> set of (op, left term, right term) seen on the paths
 
     # ------------------------------------------------------------------ entry points
@@ -269,6 +271,12 @@ class Sym:
             return self.proj(t[2][0], OK, 0)
         if t[0] == "call" and t[1] in (O + "ok_or", O + "ok_or_else") and ctor == OK and i == 0:
             return self.proj(t[2][0], SOME, 0)
+        if t[0] == "call" and t[1] == O + "ok_or" and ctor == ERR and i == 0 and len(t[2]) == 2:
+            return t[2][1]
+        if t[0] == "call" and t[1] == O + "ok_or_else" and ctor == ERR and i == 0 and len(t[2]) == 2 and t[2][1][0] == "closure" and t[2][1][1] in self.closures:
+            r = self.apply_closure(t[2][1], [])
+            if r is not None:
+                return r
         if t[0] == "call" and t[1] == R + "ok" and ctor == SOME and i == 0:
             return self.proj(t[2][0], OK, 0)
         if t[0] == "call" and t[1] in (R + "map", O + "map") and i == 0 and ctor in (OK, SOME) and len(t[2]) == 2:
@@ -300,7 +308,46 @@ class Sym:
             return ("ctor", f[1], (v,))
         if f[0] == "fn":
             return ("call", f[1], (v,), site)
+        if f[0] == "closure" and f[1] in self.closures:
+            r = self.apply_closure(f, [v])
+            if r is not None:
+                return r
         return ("apply", f, v)
+
+    def apply_closure(self, f, args):
+        """value of a closure applied to terms, when its body is a single effect-free path (else None)"""
+        node, env, frames = self.closures[f[1]]
+        if self.applying > 3:
+            return None
+        st = State()
+        st.env = dict(env)
+        st.frames = frames
+        cur = [st]
+        for p, a in zip(node.get("params", []), args):
+            nxt = []
+            for s1 in cur:
+                for s2, ok in self.pm(p, a, s1):
+                    if ok:
+                        nxt.append(s2)
+            cur = nxt
+        if len(cur) != 1:
+            return None
+        self.applying += 1
+        try:
+            saved = self.is_effect
+            hit = []
+            self.is_effect = lambda callee, a, n, s: (hit.append(callee) or False) if saved(callee, a, n, s) else False
+            try:
+                res = self.ev(node["body"], cur[0])
+            finally:
+                self.is_effect = saved
+        except TooManyPaths:
+            return None
+        finally:
+            self.applying -= 1
+        if len(res) != 1 or res[0][0].done is not None or res[0][0].atoms or hit:
+            return None
+        return res[0][1]
 
     def combinator(self, callee, args, site):
         """simplify Ok-ness preserving combinators on known constructors"""
@@ -462,7 +509,8 @@ class Sym:
             if x.get("k") == "path" and x["res"].get("rk") == "Local":
                 used.add(x["res"]["id"])
         caps = tuple(sorted((st.env.get((self.frame_id(st), i)) or ("local", self.frame_id(st), i, "?") for i in used if (self.frame_id(st), i) in st.env), key=repr))
-        t = ("closure", n.get("sp"), caps)
+        t = ("closure", self.site(n, st), caps)
+        self.closures[t[1]] = (n, dict(st.env), st.frames)
         if self.is_effect("<closure>", list(caps), n, st):
             self.add_effect(st, "closure", "<closure>", list(caps), n, t)
         return [(st, t)]
@@ -860,6 +908,17 @@ class Sym:
             st.done = "diverge"
             return [(st, None)]
         body_fn = self.body_for(callee)
+        if body_fn is None:
+            # x.into() / T::from(x) / x.try_into() / T::try_from(x): the /repo impl the conversion statically dispatches to
+            ci = H.conversion_impl(n)
+            if ci:
+                try:
+                    cf = self.F.trait_impl_fn(ci, "from" if ci.startswith("<") and " as core::convert::From<" in ci else "try_from")
+                except ValueError:
+                    cf = None
+                if cf is not None and cf.get("body") is not None and self.inline(cf["path"], n):
+                    body_fn = cf
+                    callee = cf["path"]
         if body_fn is not None and len(st.frames) <= self.max_inline and all(f[1] is not body_fn for f in st.frames) and self.inline(callee, n):
             return self.do_inline(n, body_fn, args, st)
         t = ("call", callee or trait_callee or "?", tuple(args), site)
@@ -871,6 +930,9 @@ class Sym:
         if not callee:
             return None
         l = self.F.fns_by_path.get(callee, [])
+        if len(l) > 1:
+            # several impls print the same path (e.g. `<impl From<..>>::from`): not resolvable by path
+            return None
         if len(l) == 1 and l[0].get("body") is not None and not l[0].get("unsafe_fn"):
             return l[0]
         return None
@@ -1280,3 +1342,24 @@ def summarize(paths):
         out.append({"when": [show_atom(a) for a in p.atoms], "effects": ["%s(%s)" % (short_fn(e.callee), ", ".join(show(a) for a in e.args)) for e in p.effects],
                     "done": p.done, "result": show(p.result), "loops": p.loops})
     return out
+
+
+def select(paths, assignment):
+    """paths whose variant tests are satisfied when the terms in `assignment` have the given constructors;
+    returns (paths, undecided) -- undecided lists atoms over other terms / of other kinds met on the selected paths"""
+    out, undecided = [], []
+    for p in paths:
+        ok = True
+        und = []
+        for a in p.atoms:
+            if a[0] in ("is", "isnot") and a[1] in assignment:
+                holds = assignment[a[1]] == a[2]
+                if holds != (a[0] == "is"):
+                    ok = False
+                    break
+            else:
+                und.append(a)
+        if ok:
+            out.append(p)
+            undecided.extend(und)
+    return out, undecided
